@@ -44,6 +44,7 @@ var docContexts = []string{"foo(%s\n);", "$a = %s\n;", "array(%s\n);", "$x[%s\n]
 var docBodies = []string{"<<<X\nprice: $amount\nX", "<<<'X'\nprice: $amount\nX", "<<<\"X\"\nv {$a->b} ${c}\nX", "<<<X\nX", "<<<'X'\nX",
 	"<<<X\nplain\nX", "<<<'X'\nplain {$a}\nX", "<<<X\n$a[1] $b->c\nX",
 	"<<< 'X'\nraw $a {$b}\nX", "<<<\t'X'\nraw ${a}\nX", "<<< X\ncooked $a\nX", "<<< \"X\"\ncooked {$a}\nX", "b<<<'X'\nraw $a\nX", "b<<< 'X'\nraw $a\nX",
+	"<<<X\nEOT\nX", "<<<X\n a EOT b\nEOT;\nX", "<<<'X'\nEOT\nX", "<<<X\n  EOT\n  X", "<<<EOT\nX\nEOT", "<<<X\nEOT $a EOT\nEOT\nX",
 	"<<<X\n  indented $a\n  X", "<<<'X'\n\tindented $a\n\tX", "<<<X\n    a\n   b\n   X"}
 
 // docCombos: files with 2-3 heredocs / nowdocs in varying syntactic positions
@@ -58,6 +59,27 @@ func docCombos(rng *rand.Rand, n int) [][]byte {
 			b.WriteByte('\n')
 		}
 		out = append(out, []byte(b.String()))
+	}
+	return out
+}
+
+// signChainSources: prefix / postfix sign and increment operators stacked on operands of every binding
+// strength, with and without blanks (the invalid ones are rejected by the parser)
+func signChainSources() [][]byte {
+	pre := []string{"-", "+", "--", "++", "!", "~", "(int)", "@"}
+	ops := []string{"$a", "$a ** 2", "$a[1]", "$a->b", "$a--", "$a++", "$a ** -$b", "$a - -$b", "$a + ++$b", "$a - --$b ** 2", "f()", "1"}
+	var out [][]byte
+	for _, p1 := range pre {
+		for _, o := range ops {
+			out = append(out, []byte("<?php "+p1+" "+o+";"))
+			for _, p2 := range pre {
+				out = append(out, []byte("<?php "+p1+" "+p2+" "+o+";"))
+				out = append(out, []byte("<?php $x = "+p1+p2+o+";"))
+				for _, p3 := range []string{"-", "+", "--", "++"} {
+					out = append(out, []byte("<?php "+p1+" "+p2+" "+p3+" "+o+";"))
+				}
+			}
+		}
 	}
 	return out
 }
